@@ -349,6 +349,42 @@ def check(ctx):
                        f"(exists()/mkdir() race)",
                        key=f"C19.2:mkdir-race:{q}", live=fmt(e.live))
 
+    # ------------------------------------------------------------ C19.5
+    # nobody deletes inside the assets directory: a removed file is either a
+    # protected file itself (absent is fine only before the first write) or
+    # another process's in-flight temp file, whose os.replace then fails
+    ndel = 0
+    for q, res in sorted(results.items()):
+        for e in res.of_kind("call"):
+            n = e.data.get("name") or ""
+            if n in (".unlink", ".rmdir"):
+                subj = e.data.get("recv")
+            elif n in ("os.remove", "os.unlink", "os.rmdir", "shutil.rmtree",
+                       "os.removedirs"):
+                subj = e.data["args"][0] if e.data["args"] else None
+            else:
+                continue
+            if subj is None or not any(
+                    x.op == "global" and (x.args[0] in dirs or
+                                          x.args[0] in prot)
+                    for x in subj.walk()):
+                continue
+            ndel += 1
+            own_tmp = q in atomic_funcs and not any(
+                is_call_to(x, ".glob", ".iterdir", "os.listdir", "glob.glob",
+                           ".rglob", "os.scandir") for x in subj.walk())
+            ctx.ob("C19.5", e, own_tmp,
+                   f"{q}: removes only its own temporary file" if own_tmp
+                   else
+                   f"{q}: {n} on {fmt(subj)[:80]} deletes files inside the "
+                   f"settings directory: this can be the temp file another "
+                   f"starting process is about to os.replace() (that process "
+                   f"then fails with FileNotFoundError) or a protected file",
+                   key=f"C19.5:delete:{q}")
+    ctx.ob("C19.5", prog.func(f"{SETTINGS_MOD}.initialize_if_needed"),
+           True, f"deletions inside the settings directory: {ndel}",
+           key="C19.5:inventory", nontrivial=False)
+
     # ------------------------------------------------------------ C19.3
     upd = prog.func(f"{SETTINGS_MOD}.update_if_outdated")
     ctx.analysed_fn(upd.qualname)
